@@ -130,6 +130,11 @@ pub fn check_summary(data: &[u8], source_may_set_ranges: bool) -> (Problems, u64
         let nz: Vec<i64> = advs.iter().copied().filter(|a| *a > 0).collect();
         let avg = if nz.is_empty() { 0 } else { ((nz.iter().sum::<i64>() as f64) / nz.len() as f64 + 0.5).floor() as i64 };
         let avg_all = if advs.is_empty() { 0 } else { ((advs.iter().sum::<i64>() as f64) / advs.len() as f64 + 0.5).floor() as i64 };
+        // usMaxContext: the longest glyph context any lookup looks at (input plus lookahead)
+        if let Some(mc) = os2.us_max_context() {
+            // cursive and mark attachment lookups position one glyph relative to another: counted as 2 or (fontTools) not at all
+            match (max_context(&font, true), max_context(&font, false)) { (Ok(a), Ok(b)) => { evals += 1; if mc != a && mc != b { out.push(("os2-max-context".into(), format!("OS/2 says {mc}, the lookups of GSUB and GPOS need {b} (or {a} counting attachment lookups)"))); } } (Err(e), _) | (_, Err(e)) => out.push(("layout-unreadable".into(), e)) }
+        }
         let got = os2.x_avg_char_width() as i64;
         // version >= 3: mean of non-zero advances (rounded; accept truncation too)
         let trunc = if nz.is_empty() { 0 } else { nz.iter().sum::<i64>() / nz.len() as i64 };
@@ -163,3 +168,56 @@ pub const UNICODE_RANGES: &[(usize, u32, u32)] = &[
 ];
 /// bits shared by several blocks: only "codepoint present => bit set" is checked, on one of the blocks
 pub const UNICODE_RANGES_MULTI: &[(usize, u32, u32)] = &[(9, 0x0400, 0x04FF), (6, 0x0300, 0x036F), (90, 0xF0000, 0xFFFFD), (31, 0x2000, 0x206F)];
+
+/// maximum context length over all GSUB and GPOS lookups (OpenType OS/2 usMaxContext)
+pub fn max_context(font: &Font, count_attachment: bool) -> Result<u16, String> {
+    use read_fonts::tables::gpos::PositionSubtables as P;
+    use read_fonts::tables::gsub::SubstitutionSubtables as S;
+    use read_fonts::tables::layout::{ChainedSequenceContext as C, SequenceContext as Q};
+    let e = |x: read_fonts::ReadError| x.to_string();
+    fn ctx(st: &Q) -> Result<usize, String> {
+        let e = |x: read_fonts::ReadError| x.to_string();
+        Ok(match st {
+            Q::Format1(s) => { let mut m = 0; for set in s.seq_rule_sets().iter().flatten() { for r in set.map_err(e)?.seq_rules().iter() { m = m.max(r.map_err(e)?.glyph_count() as usize); } } m }
+            Q::Format2(s) => { let mut m = 0; for set in s.class_seq_rule_sets().iter().flatten() { for r in set.map_err(e)?.class_seq_rules().iter() { m = m.max(r.map_err(e)?.glyph_count() as usize); } } m }
+            Q::Format3(s) => s.glyph_count() as usize,
+        })
+    }
+    fn chain(st: &C) -> Result<usize, String> {
+        let e = |x: read_fonts::ReadError| x.to_string();
+        Ok(match st {
+            C::Format1(s) => { let mut m = 0; for set in s.chained_seq_rule_sets().iter().flatten() { for r in set.map_err(e)?.chained_seq_rules().iter() { let r = r.map_err(e)?; m = m.max(r.input_glyph_count() as usize + r.lookahead_glyph_count() as usize); } } m }
+            C::Format2(s) => { let mut m = 0; for set in s.chained_class_seq_rule_sets().iter().flatten() { for r in set.map_err(e)?.chained_class_seq_rules().iter() { let r = r.map_err(e)?; m = m.max(r.input_glyph_count() as usize + r.lookahead_glyph_count() as usize); } } m }
+            C::Format3(s) => s.input_glyph_count() as usize + s.lookahead_glyph_count() as usize,
+        })
+    }
+    let mut m = 0usize;
+    if let Ok(gsub) = font.f.gsub() {
+        for l in gsub.lookup_list().map_err(e)?.lookups().iter() {
+            match l.map_err(e)?.subtables().map_err(e)? {
+                S::Single(_) | S::Multiple(_) | S::Alternate(_) => m = m.max(1),
+                S::Ligature(sts) => { for st in sts.iter() { for set in st.map_err(e)?.ligature_sets().iter() { for lig in set.map_err(e)?.ligatures().iter() { m = m.max(lig.map_err(e)?.component_glyph_ids().len() + 1); } } } }
+                S::Contextual(sts) => { for st in sts.iter() { m = m.max(ctx(&st.map_err(e)?)?); } }
+                S::ChainContextual(sts) => { for st in sts.iter() { m = m.max(chain(&st.map_err(e)?)?); } }
+                S::Reverse(sts) => { for st in sts.iter() { m = m.max(1 + st.map_err(e)?.lookahead_glyph_count() as usize); } }
+                S::EmptyExtension => {}
+            }
+        }
+    }
+    if let Ok(gpos) = font.f.gpos() {
+        for l in gpos.lookup_list().map_err(e)?.lookups().iter() {
+            match l.map_err(e)?.subtables().map_err(e)? {
+                P::Single(sts) => { if sts.iter().next().is_some() { m = m.max(1); } }
+                P::Pair(sts) => { if sts.iter().next().is_some() { m = m.max(2); } }
+                P::Cursive(sts) => { if count_attachment && sts.iter().next().is_some() { m = m.max(2); } }
+                P::MarkToBase(sts) => { if count_attachment && sts.iter().next().is_some() { m = m.max(2); } }
+                P::MarkToLig(sts) => { if count_attachment && sts.iter().next().is_some() { m = m.max(2); } }
+                P::MarkToMark(sts) => { if count_attachment && sts.iter().next().is_some() { m = m.max(2); } }
+                P::Contextual(sts) => { for st in sts.iter() { m = m.max(ctx(&st.map_err(e)?)?); } }
+                P::ChainContextual(sts) => { for st in sts.iter() { m = m.max(chain(&st.map_err(e)?)?); } }
+                P::EmptyExtension => {}
+            }
+        }
+    }
+    Ok(m.min(u16::MAX as usize) as u16)
+}
